@@ -207,7 +207,13 @@ func checkMain(args []string) int {
 		}
 		results = append(results, commuteObligations(w, ss, fn)...)
 	}
-	if lr := verifyLemmas(w, ss); len(lr.Obls) > 0 || len(lr.Errors) > 0 {
+	lemmaPkgs := map[string]bool{}
+	for _, r := range results {
+		if r.Fn != nil && r.Fn.Pkg != nil {
+			lemmaPkgs[r.Fn.Pkg.Pkg.Path()] = true
+		}
+	}
+	if lr := verifyLemmas(w, ss, lemmaPkgs); len(lr.Obls) > 0 || len(lr.Errors) > 0 {
 		results = append(results, lr)
 	}
 	// a contract clause that cannot be interpreted on the current code (a local, loop or call it names is gone; a
@@ -308,7 +314,7 @@ func checkMain(args []string) int {
 			encOf[o] = r
 			if o.Cover {
 				covers++
-				if !o.discharged() {
+				if !o.discharged() && !(strings.Contains(o.Name, "/cover.ret#") && someReturnReachable(r)) {
 					failing = append(failing, o)
 				}
 				continue
@@ -546,4 +552,14 @@ func replayRank(o *Obligation) int {
 		return 2
 	}
 	return 0
+}
+
+// someReturnReachable: dead return statements are not vacuity (the guard wants the function as a whole to be reachable)
+func someReturnReachable(r *FuncResult) bool {
+	for _, o := range r.Obls {
+		if o.Cover && strings.Contains(o.Name, "/cover.ret#") && o.discharged() {
+			return true
+		}
+	}
+	return false
 }
